@@ -16,7 +16,8 @@ Inductive sview :=
 | SpRsi (n : nat) | SpMyRsi (n : nat) | SpCti (n : nat) | SpNet (n : nat) | SpCog (n : nat)
 | SpSs (n : nat) | SpRoofing (n m : nat) | SpLaguerre (g : Q) | SpCyber (n : nat) | SpCyberGen (n : nat)
 | SpTrendFlex (n : nat) | SpReFlex (n : nat) | SpLrsi (n : nat)
-| SpWRolling | SpWRollingMean | SpDrawdown | SpLnReturn.
+| SpWRolling | SpWRollingMean | SpDrawdown | SpLnReturn
+| SpEft (n : nat) (ma : desc Q) | SpPfe (n : nat) (ma : desc Q).
 
 (** [None]: the specification says nothing about this history (e.g. CTI before its window is full,
     HLN / Welford getters on the empty history) *)
@@ -45,6 +46,10 @@ Definition spec_eval (v : sview) (h : list Q) : option (option Q) :=
   | SpWRollingMean => match h with [] => None | _ => Some (Some (spec_rmean h)) end
   | SpDrawdown => Some (Some (spec_drawdown h))
   | SpLnReturn => Some (spec_lnreturn h)
+  (* the moving average is a parameter of these two specifications: its answers to the list of values the
+     specification says it receives (eft_inputs / pfe_inputs) are obtained by running the MA's own model *)
+  | SpEft n ma => match mrun (denote ma) (eft_inputs n h) with Ok mas => Some (spec_eft n h mas) | Err _ => None end
+  | SpPfe n ma => match mrun (denote ma) (pfe_inputs n h) with Ok mas => Some (spec_pfe mas) | Err _ => None end
   end.
 
 Definition oq_eqb (a b : option Q) : bool :=
